@@ -277,3 +277,223 @@ Print Assumptions C02_dhp_guarded_ptr_live_partial.
 (** non-vacuity: [C02_guarded_ptr_live_from_exclusive_nonvacuous], [C02_live_fl_nonvacuous] and
     [C02_scan_frees_older_nonvacuous] above (the run [C02_live_example] satisfies the side conditions; "ret 5" at 47,
     dispose at 127, the releasing clear( Guard 0 ) announced at event 100). *)
+
+(** ---- appended (e1-dhpexcl): the cell of a Guard is exclusive, GIVEN the allocator discipline (LV.Proofs.DhpLiveGxA .. GxC) ---- *)
+From LV Require Import Proofs.DhpLiveGcA Proofs.DhpLiveGcB Proofs.DhpLiveGcC Proofs.DhpLiveGxA Proofs.DhpLiveGxB Proofs.DhpLiveGxC.
+
+(** Vocabulary (LV.Proofs.DhpLiveGcA): [gfold tr] summarises a trace per thread (announced operation [gop], record it is
+    attached to [gtl], table Guard index -> hazard cell [gmp] built from its "_own" events and completed ~Guard(), guard
+    block taken from hp_allocator and not linked yet [gpv], last store to a hazard cell [gsl]).
+    [cell_disc c tr], the discipline of thread_hp_storage / hp_allocator, says of every event of [tr]:
+      - an "_own s" event of thread u (Guard() got cell s) names a cell of u's own attached record (initial array, or a
+        block linked into its guard list) that no Guard of any thread holds;
+      - a store into a cell of the guard block that the storing thread has just taken from hp_allocator (and not linked
+        yet) does not hit a block that is linked into the guard list of an attached record.
+    It is what remains open, see [C02_cell_disc_statement] below. *)
+
+(** (d) what every reachable trace satisfies, given that discipline: every event satisfies [PhiG] (a store to a hazard
+    cell is made through a Guard whose cell it is, by detach into the own initial array, or into the block just taken;
+    "_det" / "_att" / "_own" / "_relall" come from the operations that may emit them; protect() answers after a store
+    that hit the cell of its Guard; operation arguments are naturals), and the summary [K]: the record a thread believes
+    it is attached to is the one the history says, the cell of every Guard is a cell of the thread's attached record, no
+    cell is held by two Guards. *)
+Theorem C02_guard_table : forall fuel c ths conf, Conc.reach (Dhp.init_cfg fuel c ths) conf ->
+  flbad (hist (Conc.trace conf)) = false -> cell_disc c (Conc.trace conf) ->
+  TPropG (Conc.trace conf) /\ VAL (gfold (Conc.trace conf)) /\ K c (gfold (Conc.trace conf)) (hist (Conc.trace conf)).
+Proof. exact dhp_TPropG. Qed.
+Print Assumptions C02_guard_table.
+
+(** (e) the trace-level derivation, for ANY trace (no model involved): if every event satisfies [PhiG], [PhiD]
+    ([cell_disc]) and [PhiA] then the cell of a Guard is exclusive. *)
+Theorem C02_guard_cell_exclusive_of_event_properties : forall c tr,
+  TPropG tr -> cell_disc c tr -> TProp PhiA tr -> guard_cell_exclusive c tr.
+Proof. exact gce_of_disc. Qed.
+Print Assumptions C02_guard_cell_exclusive_of_event_properties.
+
+(** (f) [guard_cell_exclusive] for every reachable trace, every schedule and every client program, given [cell_disc] *)
+Theorem C02_guard_cell_exclusive_of_disc : forall fuel c ths conf,
+  Conc.reach (Dhp.init_cfg fuel c ths) conf -> flbad (hist (Conc.trace conf)) = false ->
+  cell_disc c (Conc.trace conf) -> guard_cell_exclusive c (Conc.trace conf).
+Proof. exact dhp_guard_cell_exclusive_of_disc. Qed.
+Print Assumptions C02_guard_cell_exclusive_of_disc.
+
+(** (g) the second sentence at the level of the client's Guard object: NO hypothesis on the free lists, NO hypothesis
+    [scan_frees_older], NO hypothesis [guard_cell_exclusive]; side conditions of the current code, the client discipline
+    (publish p once, retire every object at most once, retire p only after a store replaced it in its source), and the
+    allocator discipline [cell_disc] of the trace.  A pointer returned by protect( Guard j ) of thread t is not handed to
+    the disposer before t starts detach, ~Guard( j ), or assign / clear / protect on Guard j. *)
+Definition C02_dhp_guarded_ptr_live_of_disc_statement : Prop := forall fuel c ths conf,
+  Conc.reach (Dhp.init_cfg fuel c ths) conf ->
+  (4 <= c_RB c)%nat -> c_old c = false -> c_oldtail c = false ->
+  (Z.of_nat (List.length ths) + 3 < 2147483648)%Z ->
+  NoDup (flat_map (fun e => DhpInvB.retired_ev (snd e)) (Conc.trace conf)) ->
+  cell_disc c (Conc.trace conf) ->
+  forall p, p <> 0%nat -> publish_once (Conc.trace conf) p -> retire_after_unlink (Conc.trace conf) p ->
+  forall v t j k, nth_error (Conc.trace conf) v = Some (t, EvCli "ret" [zn p]) ->
+    lop (sfold (firstn v (Conc.trace conf))) t = [7%Z; zn j; zn k] ->
+  forall d u, (v < d)%nat -> nth_error (Conc.trace conf) d = Some (u, ev_dispose p) ->
+  exists i e, (v < i < d)%nat /\ nth_error (Conc.trace conf) i = Some (t, e) /\ releasesD j e.
+Theorem C02_dhp_guarded_ptr_live_of_disc : C02_dhp_guarded_ptr_live_of_disc_statement.
+Proof. exact dhp_guarded_ptr_live_of_disc. Qed.
+Print Assumptions C02_dhp_guarded_ptr_live_of_disc.
+
+(** ---- the allocator discipline is PROVED (LV.Proofs.DhpLiveGxE .. GxP) ---- *)
+From LV Require Import Proofs.DhpLiveGxF Proofs.DhpLiveGxP.
+
+(** (h) [cell_disc] holds of every reachable trace, for every schedule, every number of threads and every client program,
+    when the embedded free lists behaved and extension blocks have at least one cell (for c_GB = 0 it is false:
+    [C02_guard_cell_exclusive_statement_refuted]).  Proof: two more invariants on top of [InvA] x [InvG]:
+    guard-block ownership restated over the trace ([InvB3]: a block taken from hp_allocator and not linked yet is in no
+    free list, in no attached record's list, private to one thread; the blocks of a record being detached are the
+    next_block_ chain from the detaching thread's cursor), and [InvC3]: thread-record ownership ([JR]: a record's
+    thread_id_ names its holder; an unpublished record is named by no pointer field or cursor) + the free chain of
+    thread_hp_storage ([JCh]: free_head_ / guard::next_ of an attached record run through distinct cells of that record
+    that no Guard holds; hp_init .. "_att"; the chaining loop of hp_allocator::alloc; the pop of alloc() .. "_own"; the
+    push of free() .. "ret"). *)
+Definition C02_cell_disc_statement : Prop := forall fuel c ths conf,
+  Conc.reach (Dhp.init_cfg fuel c ths) conf -> flbad (hist (Conc.trace conf)) = false -> (1 <= c_GB c)%nat ->
+  cell_disc c (Conc.trace conf).
+Theorem C02_cell_disc : C02_cell_disc_statement.
+Proof. exact dhp_cell_disc. Qed.
+Print Assumptions C02_cell_disc.
+
+(** a by-product, given [cell_disc]: a guard block that a thread has taken from the allocator and not linked yet is
+    linked into no attached record and is private to that thread *)
+Theorem C02_private_blocks : forall fuel c ths conf, Conc.reach (Dhp.init_cfg fuel c ths) conf ->
+  flbad (hist (Conc.trace conf)) = false -> cell_disc c (Conc.trace conf) -> TB (Conc.trace conf).
+Proof. exact dhp_TB. Qed.
+Print Assumptions C02_private_blocks.
+
+(** (i) [C02_guard_cell_exclusive_corrected_statement] holds *)
+Theorem C02_guard_cell_exclusive_corrected : C02_guard_cell_exclusive_corrected_statement.
+Proof. exact dhp_guard_cell_exclusive_corrected. Qed.
+Print Assumptions C02_guard_cell_exclusive_corrected.
+
+(** (j) THE SECOND SENTENCE OF C02 FOR DHP AT THE LEVEL OF THE CLIENT'S GUARD OBJECT, with no unproved hypothesis:
+    for every schedule (Conc.reach), every number of threads (< 2^31 - 3) and every client program (attach, detach,
+    Guard alloc/free, assign, clear, protect, publish, retire, scan), in the faithful configuration of the current code
+    (retired-block size >= 4, c_old = c_oldtail = false, extension blocks of at least one cell), under the client
+    discipline (publish p once, retire every object at most once, retire p only after a store replaced it in its
+    source): if protect( Guard j, source k ) of thread t returned p at trace index v and p is handed to the disposer at
+    d > v, then t started detach, ~Guard( j ), or assign / clear / protect on Guard j in between. *)
+Definition C02_dhp_guarded_ptr_live_statement : Prop := forall fuel c ths conf,
+  Conc.reach (Dhp.init_cfg fuel c ths) conf ->
+  (4 <= c_RB c)%nat -> c_old c = false -> c_oldtail c = false -> (1 <= c_GB c)%nat ->
+  (Z.of_nat (List.length ths) + 3 < 2147483648)%Z ->
+  NoDup (flat_map (fun e => DhpInvB.retired_ev (snd e)) (Conc.trace conf)) ->
+  forall p, p <> 0%nat -> publish_once (Conc.trace conf) p -> retire_after_unlink (Conc.trace conf) p ->
+  forall v t j k, nth_error (Conc.trace conf) v = Some (t, EvCli "ret" [zn p]) ->
+    lop (sfold (firstn v (Conc.trace conf))) t = [7%Z; zn j; zn k] ->
+  forall d u, (v < d)%nat -> nth_error (Conc.trace conf) d = Some (u, ev_dispose p) ->
+  exists i e, (v < i < d)%nat /\ nth_error (Conc.trace conf) i = Some (t, e) /\ releasesD j e.
+Theorem C02_dhp_guarded_ptr_live : C02_dhp_guarded_ptr_live_statement.
+Proof. exact dhp_guarded_ptr_live. Qed.
+Print Assumptions C02_dhp_guarded_ptr_live.
+(** non-vacuity: the run [C02_ext_conf] below uses extension blocks (Guards 4..6 live in two extension blocks), frees a
+    Guard and reuses its cell; it is reachable, satisfies every side condition ([C02_ext_facts]: RB = 4, c_old =
+    c_oldtail = false, GB = 2, two threads, the retired objects are [5]), and the instance v = 93 (protect through Guard
+    6, whose cell is GE 1 0), d = 194 (dispose 5) has the releasing operation "op 6 6" (clear Guard 6) at index 163, as
+    the theorem demands; [C02_ext_cell_disc_by_theorem] re-derives the discipline of that run from (h). *)
+
+(** ---- non-vacuity with extension blocks in use, and the executable check of [cell_disc] (LV.Proofs.DhpLiveGxD) ---- *)
+From LV Require Import Proofs.DhpLiveGxD.
+
+(** [chk] folds a concrete trace and tests [PhiD] at every event ([bnd]: bounds on the thread and record numbers that
+    occur); it is sound: a trace that passes satisfies [cell_disc]. *)
+Theorem C02_cell_disc_check : forall c nt nr tr, bnd nt nr tr = true -> chk c nt nr tr gs0 h0 = true -> cell_disc c tr.
+Proof. exact cell_disc_check. Qed.
+Print Assumptions C02_cell_disc_check.
+
+(** two threads, 4 initial hazard pointers, extension blocks of 2 cells.  Thread 0 allocates Guards 0..6: Guards 4 and 5
+    live in extension block 0 ("_link 0 0" at event 54), Guard 6 in extension block 1 ("_link 0 1" at 76, "_own GE 1 0"
+    at 77).  Thread 1 publishes object 5; thread 0 protects it through Guard 6 ("ret 5" at event 93; the store to the
+    cell GE 1 0 is event 88); thread 1 replaces 5 by 6, retires 5 and scans: 5 is not disposed.  Thread 0 frees Guard 5,
+    allocates Guard 7 (which reuses the cell GE 0 1 from the free chain), clears Guard 6 ("op 6 6" at event 163);
+    thread 1 scans again and 5 is disposed at event 194. *)
+Definition C02_ext_cfg : cfg := Dhp.mkCfg 4 2 4 false 200 2 false.
+Definition C02_ext_ths : list (list op) := map decode_ops
+  [[[1]; [3;0]; [3;1]; [3;2]; [3;3]; [3;4]; [3;5]; [3;6]; [15;0;5]; [7;6;0]; [8;1;1]; [15;1;2]; [4;5]; [3;7]; [6;6]; [8;1;3]];
+   [[1]; [8;0;5]; [15;1;1]; [8;0;6]; [9;5]; [10]; [8;1;2]; [15;1;3]; [10]]]%Z.
+Definition C02_ext_conf := fst (Conc.run 4000 0 [] (Dhp.init_cfg 4000 C02_ext_cfg C02_ext_ths)).
+
+Example C02_ext_facts :
+  let tr := Conc.trace C02_ext_conf in
+  List.length tr = 197%nat /\ flbad (hist tr) = false /\
+  (4 <= c_RB C02_ext_cfg)%nat /\ c_old C02_ext_cfg = false /\ c_oldtail C02_ext_cfg = false /\ (1 <= c_GB C02_ext_cfg)%nat /\
+  flat_map (fun e => DhpInvB.retired_ev (snd e)) tr = [5%nat] /\
+  nth_error tr 76 = Some (0%nat, ev_link 0 1) /\ nth_error tr 77 = Some (0%nat, ev_own (GE 1 0)) /\
+  nth_error tr 93 = Some (0%nat, EvCli "ret" [5%Z]) /\ lop (sfold (firstn 93 tr)) 0 = [7; 6; 0]%Z /\
+  lsl (sfold (firstn 93 tr)) 0 = Some (88%nat, GE 1 0, 5%nat) /\
+  gmp (gfold (firstn 93 tr)) 0 = [(6, GE 1 0); (5, GE 0 1); (4, GE 0 0); (3, GI 0 3); (2, GI 0 2); (1, GI 0 1); (0, GI 0 0)]%nat /\
+  nth_error tr 161 = Some (0%nat, ev_own (GE 0 1)) /\
+  nth_error tr 163 = Some (0%nat, EvCli "op" [6; 6]%Z) /\ releasesD 6 (EvCli "op" [6; 6]%Z) /\
+  nth_error tr 194 = Some (1%nat, ev_dispose 5) /\
+  att (hist (firstn 194 tr)) 0 = Some (0%nat, 18%nat) /\ linked (hist (firstn 194 tr)) 0 = [(1, 76); (0, 54)]%nat.
+Proof.
+  cbv zeta. repeat (split; [vm_compute; try reflexivity; try lia|]); [|vm_compute; reflexivity].
+  right. split; [right; right; left; reflexivity|reflexivity].
+Qed.
+
+(** the run satisfies the allocator discipline (by the sound check) ... *)
+Example C02_ext_cell_disc : cell_disc C02_ext_cfg (Conc.trace C02_ext_conf).
+Proof. apply (cell_disc_check C02_ext_cfg 2 2); vm_compute; reflexivity. Qed.
+
+(** ... hence, by (f), the cell of every Guard through which protect() answered is exclusive, the Guard in extension
+    block 1 included: all hypotheses of [C02_guard_cell_exclusive_of_disc] are satisfied by a run that uses extension
+    blocks, frees a Guard and reuses its cell *)
+Example C02_ext_guard_cell_exclusive : guard_cell_exclusive C02_ext_cfg (Conc.trace C02_ext_conf).
+Proof.
+  apply (C02_guard_cell_exclusive_of_disc 4000 C02_ext_cfg C02_ext_ths).
+  - apply Conc.run_reach.
+  - vm_compute. reflexivity.
+  - exact C02_ext_cell_disc.
+Qed.
+
+(** the discipline of the example run, this time from the theorem (h) instead of the executable check *)
+Example C02_ext_cell_disc_by_theorem : cell_disc C02_ext_cfg (Conc.trace C02_ext_conf).
+Proof.
+  apply (C02_cell_disc 4000 C02_ext_cfg C02_ext_ths).
+  - apply Conc.run_reach.
+  - vm_compute. reflexivity.
+  - vm_compute. lia.
+Qed.
+
+(** ... and ALL hypotheses of (j) hold of that run for p = 5, client discipline included (the only "publish _ 5" is event
+    40, the only "retire 5" is event 105, it comes after thread 1's store of 6 into source 0 at event 103, which then held
+    5); so the theorem applies and yields the releasing operation between the answer of protect (93) and the disposer
+    call (194) *)
+Definition C02_pubb (p : nat) (te : nat * ev) : bool :=
+  match lcls (snd te) with LOp args => match pend_of args with Some (_, q) => Nat.eqb q p | None => false end | _ => false end.
+Definition C02_retb (p : nat) (te : nat * ev) : bool :=
+  match snd te with
+  | EvCli n [a; b] => String.eqb n "op" && Z.eqb a 9 && Z.eqb b (Z.of_nat p)
+  | _ => false
+  end.
+
+Example C02_ext_publish_once : publish_once (Conc.trace C02_ext_conf) 5.
+Proof.
+  assert (E : idxs (C02_pubb 5) (Conc.trace C02_ext_conf) 0 = [40%nat]) by (vm_compute; reflexivity).
+  assert (Hb : forall y e k, is_pub_of k 5 e -> C02_pubb 5 (y, e) = true).
+  { intros y e k (args & E1 & E2). unfold C02_pubb. cbn [snd]. now rewrite E1, E2. }
+  intros o1 o2 y1 y2 e1 e2 k1 k2 H1 H2 P1 P2.
+  rewrite (idxs_single _ _ _ E o1 _ H1 (Hb y1 e1 k1 P1)), (idxs_single _ _ _ E o2 _ H2 (Hb y2 e2 k2 P2)). reflexivity.
+Qed.
+
+Example C02_ext_retire_after_unlink : retire_after_unlink (Conc.trace C02_ext_conf) 5.
+Proof.
+  assert (E : idxs (C02_retb 5) (Conc.trace C02_ext_conf) 0 = [105%nat]) by (vm_compute; reflexivity).
+  intros rho x Hn. assert (rho = 105%nat) by (apply (idxs_single _ _ _ E rho _ Hn); reflexivity). subst rho.
+  exists 103%nat, 0%nat, 6%nat. split; [lia|]. split; [|split; [lia|vm_compute; reflexivity]].
+  exists 1%nat, (EvAcc KSt [7%Z; 0%Z] true). repeat split; vm_compute; reflexivity.
+Qed.
+
+Example C02_ext_live_instance :
+  exists i e, (93 < i < 194)%nat /\ nth_error (Conc.trace C02_ext_conf) i = Some (0%nat, e) /\ releasesD 6 e.
+Proof.
+  apply (C02_dhp_guarded_ptr_live 4000 C02_ext_cfg C02_ext_ths C02_ext_conf (Conc.run_reach _ _ _ _)) with (p := 5%nat) (k := 0%nat) (u := 1%nat);
+    try (vm_compute; reflexivity); try (vm_compute; lia).
+  - assert (E : flat_map (fun e => DhpInvB.retired_ev (snd e)) (Conc.trace C02_ext_conf) = [5%nat]) by (vm_compute; reflexivity).
+    rewrite E. repeat constructor. intros [].
+  - exact C02_ext_publish_once.
+  - exact C02_ext_retire_after_unlink.
+Qed.
